@@ -113,6 +113,15 @@ func (o *rigObj) Do(tid int, op string) string {
 	return "bad-op"
 }
 
+// Abort is called when a case hit the step cap: drain the actor so that a restart thread spinning until
+// the dispatch state is Idle can finish instead of leaking a busy goroutine.
+func (o *rigObj) Abort() {
+	for i := 0; i < 200; i++ {
+		o.rig.TryTurn(0)
+		time.Sleep(5 * time.Millisecond)
+	}
+}
+
 func (o *rigObj) Final() string {
 	// sequential completion: worker 0 runs turns until nothing is left (bounded)
 	for i := 0; i < 64; i++ {
